@@ -2,6 +2,7 @@ import ObiVerif.Model.Apat
 import ObiVerif.Lemmas.Apat
 import ObiVerif.Lemmas.ApatLocate
 import ObiVerif.Lemmas.ApatIndel
+import ObiVerif.Lemmas.ApatComp
 /-!
 # C10 — primer pattern matching reports exactly the matching positions and error counts (property theorems)
 
@@ -19,17 +20,29 @@ Proved here, for every pattern of 1..63 positions, every budget, every sequence 
   (decided over the generated tables) says that complementing a letter mirrors its code;
 * `dnaCode_is_iupac`, `dnaCode_acgt_only`: the generated IUPAC table is the IUPAC table;
 * `locate_total`, `allMatches_total`: the repaired `LocatePattern` / `AllMatches` do not panic (non-empty pattern, linear
-  sequence); `filterBestMatch_subset`, `findAllIndex_inside`: kept hits are reported hits, and end inside the sequence.
+  sequence); `filterBestMatch_subset`, `findAllIndex_inside`: kept hits are reported hits, and end inside the sequence;
+* `locate_spec` (+ `locate_spec_of_eq`, `editDist_least`): the repaired `LocatePattern p s` returns `(f, t, k)` with
+  `0 ≤ f ≤ t ≤ |s|`, `k = editDist p s[f:t]` and `k ≤ editDist p s[a:b]` for every substring — a best semi-global alignment
+  (`Lemmas/ApatLocate.lean`: the matrix holds the least reachable costs, the backtracking follows an alignment of that cost).
+  False of the unrepaired code (D19, D32: witnesses in the corpus);
+* `indel_iff` (+ `indel_hit_iff`, `manberAll_indel`, `findAllIndex_indel`): for a pattern of 1..63 positions WITHOUT obligatory
+  (`#`) position, `manberIndel P d b l` contains `(pos-m+1, k)` iff `pos` is in the scanned window, `k ≤ e` and `k` is the least edit
+  distance between the pattern and a substring of the window ending at `pos` (hence: a hit at `pos` iff some substring ending
+  there is within the budget).  Automaton invariant `RepI` (`Lemmas/ApatIndel.lean`): after reading the window up to `pos`, bit
+  `m-j` of the level-`d` word ⇔ `p[0..j)` aligns with some suffix of the text read with `≤ d` errors;
+* `complement_mirror`, `match_revcomp_string`, `compile_grammar`: for every pattern string of the documented grammar
+  (non-empty list of `['!'] (Letter | '[' Letter+ ']') ['#']`), the string-level `complementPattern` succeeds and yields the mirrored
+  code list, so that `match_revcomp` holds without its `MirrorList` hypothesis (`Lemmas/ApatComp.lean`).
 
-NOT proved (tied by the correspondence check and the harness oracle only, see lib/cfg/C10.py):
-* `indel_iff` — full statement: `manberIndel P d b l` contains `(pos-m+1, k)` iff the best edit distance between the pattern and
-  a substring of the window ending at `pos` is `k ≤ e` (hence: non-empty iff some substring is within the budget).
-  The harness checks exactly this per-position statement against a brute-force/Sellers reference on every indel case.
-* `locate_spec` — full statement: `locatePattern p s = some (f, t, k) → 0 ≤ f ≤ t ≤ |s| ∧ k = editDistance p s[f:t] ∧
-  k = min over substrings`.  False of the unrepaired code (D19, D32: witnesses in the corpus); for the repaired model only
-  sample evaluations are given below (labelled tests).
-* that the *string-level* `complementPattern` produces the mirrored code list (hypothesis `MirrorList` of `match_revcomp`):
-  checked by the oracle `rcpat.code` on every complemented pattern; sample evaluations below.
+NOT proved / excluded (tied by the correspondence check and the harness oracle only, see lib/cfg/C10.py):
+* obligatory positions combined with indels (hypothesis `hno` of `indel_iff`): the C code masks the error transitions of an
+  obligatory column but not the initial state, so that `A#C` with one error is found in `c` and not in `tc` (test below; the real
+  code does the same): no uniform specification to prove;
+* strings accepted by `CheckPattern` outside the documented grammar: a `#` following a `#` is a position of its own and
+  `complementPattern` does NOT mirror such patterns (`complement_outside_grammar`: `A##A` ↦ `T##T`, `A##` ↦ rejected);
+  other exotic accepted strings (`!!A`, `!#`) are not covered by the theorem (all strings of length ≤ 7 over `A C [ ] ! #`
+  without `##` that compile were evaluated in the model: mirrored);
+* circular sequences, `AllMatches` / `BestMatch` end to end with indels (the composition of `indel_iff` and `locate_spec`).
 -/
 namespace ObiVerif.Props.C10
 open ObiVerif ObiVerif.Apat
@@ -238,6 +251,11 @@ theorem findAllIndex_indel (P : Pattern) (seq : Bytes) (begin length : Int)
     refine ⟨s, k', ?_, rfl, by omega, by omega⟩
     exact (indel_iff P _ _ _ hm1 hm (encode_lt seq) hno _ _).2 ⟨pos, hb, by simpa using hp, h1, hk, hex, hall⟩
 
+/-- test: why `hno` is there — with an obligatory position the indel automaton has no uniform meaning: pattern `A#C`,
+budget 1: the text `c` is reported (obligatory `A` deleted, through the initial state) but `tc` is not (same on the real code) -/
+example : (compile ([65, 35, 67] : Bytes) 1 true).toOption.map (fun P => (manberIndel P [2] 0 1, manberIndel P [19, 2] 0 2))
+    = some ([(-1, 1)], []) := by decide
+
 /-- non-vacuity / test: pattern `ACGTA`, budget 1, indels; the hits are the end positions 3 (`cgta`: first pattern
 symbol deleted, reported start −1: "may return shifted pos") and 11 (`accgta`, one inserted symbol, or `cgta`) -/
 example : (compile ([65, 67, 71, 84, 65] : Bytes) 1 true).toOption.map
@@ -286,11 +304,76 @@ theorem encode_comp : ∀ c, c < 26 →
     encodeByte (SeqOps.nucComplement (UInt8.ofNat (97 + c))) = compSym (encodeByte (UInt8.ofNat (97 + c))) ∧
     isLower (SeqOps.nucComplement (UInt8.ofNat (97 + c))) = true := by decide
 
-/-- test (sample evaluation): the string-level complement of a pattern using every token kind is the mirrored code list -/
+/-- test (sample evaluation, now an instance of `complement_mirror`): the string-level complement of a pattern using every token kind -/
 example : (do
     let P ← (compile ([65, 35, 67, 33, 91, 71, 84, 93, 33, 82, 78, 91, 65, 67, 93, 35] : Bytes) 2 false).toOption
     let R ← (reverseComplement P).toOption
     pure (R.cpat, R.patlen == P.patlen)) = some (([91, 71, 84, 93, 35, 78, 33, 89, 33, 91, 65, 67, 93, 71, 84, 35] : Bytes), true) := by decide
+
+/-! ## the string-level complement
+
+The documented pattern grammar: a non-empty list of positions `['!'] (Letter | '[' Letter+ ']') ['#']` (`Tok`, with
+`Tok.WF`: upper-case letters, at least one, exactly one outside brackets; `patStr ts` is the pattern string, `Tok.code`
+the accepted-letter set | `OBLIBIT`; `Tok.comp` complements the letters). -/
+
+/-- **`MakeApatPattern` on a pattern of the grammar** compiles, one code word per position -/
+theorem compile_grammar (ts : List Tok) (hts : ∀ t ∈ ts, t.WF) (hne : ts ≠ []) (e : Nat) (b : Bool) :
+    compile (patStr ts) e b = .ok ⟨patStr ts, ts.map Tok.code, e, b⟩ :=
+  compile_pat ts hts hne e b
+
+/-- **`complementPattern` yields the mirrored code list**: for every pattern string of the grammar, the compiled
+pattern `P` is reverse-complemented (`complementPattern`: complement every character, reverse the string, re-attach the
+`!` and `#` modifiers, re-encode) without error into the pattern of the reversed list of complemented positions, whose
+code list is the mirror (`MirrorList`) of the reversed code list of `P` — the hypothesis of `match_revcomp`. -/
+theorem complement_mirror (ts : List Tok) (hts : ∀ t ∈ ts, t.WF) (hne : ts ≠ []) (e : Nat) (b : Bool) :
+    ∃ P P' : Pattern, compile (patStr ts) e b = .ok P ∧ reverseComplement P = .ok P' ∧
+      P'.cpat = patStr (ts.reverse.map Tok.comp) ∧ P'.maxerr = P.maxerr ∧ P'.hasIndel = P.hasIndel ∧
+      P'.patlen = P.patlen ∧ P.patlen = ts.length ∧ MirrorList P.codes.reverse P'.codes := by
+  obtain ⟨h1, h2⟩ := reverseComplement_pat ts hts hne e b
+  exact ⟨_, _, compile_pat ts hts hne e b, h1, rfl, rfl, rfl, by simp [Pattern.patlen], by simp [Pattern.patlen], h2⟩
+
+/-- **strand symmetry at the string level** (`match_revcomp` without the `MirrorList` hypothesis): for every pattern
+string of the grammar with at most 63 positions, matching the pattern returned by `ReverseComplement` on `d` ≡ matching
+the pattern on the reverse complement of `d`, with mirrored coordinates (mismatch-only, whole-sequence search, letters
+only and no `u` in the sequence). -/
+theorem match_revcomp_string (ts : List Tok) (hts : ∀ t ∈ ts, t.WF) (hne : ts ≠ []) (hlen : ts.length ≤ 63)
+    (e : Nat) (b : Bool) (d : List Nat) (hd : ∀ c ∈ d, c < 26 ∧ c ≠ 20) (i : Int) (k : Nat) :
+    ∃ P P' : Pattern, compile (patStr ts) e b = .ok P ∧ reverseComplement P = .ok P' ∧
+      ((i, k) ∈ manberSub P' d 0 d.length ↔
+        ∃ i' : Nat, i = (i' : Int) ∧ i' + P.patlen ≤ d.length ∧
+          (((d.length - i' - P.patlen : Nat) : Int), k) ∈ manberSub P (rcData d) 0 d.length) := by
+  obtain ⟨P, P', h1, h2, _, h4, _, _, h7, h8⟩ := complement_mirror ts hts hne e b
+  have hpos : 1 ≤ ts.length := List.length_pos_iff.2 hne
+  exact ⟨P, P', h1, h2, match_revcomp P P' d h8 h4 (by omega) (by omega) hd i k⟩
+
+/-- non-vacuity: the pattern `A#C![GT]!RN[AC]#` (every token kind) as a token list; its complement is `[GT]#N!Y![AC]GT#` -/
+example :
+    let ts : List Tok := [⟨false, false, [65], true⟩, ⟨false, false, [67], false⟩, ⟨true, true, [71, 84], false⟩,
+      ⟨true, false, [82], false⟩, ⟨false, false, [78], false⟩, ⟨false, true, [65, 67], true⟩]
+    (∀ t ∈ ts, (∀ c ∈ t.letters, isUpper c = true) ∧ t.letters ≠ [] ∧ (t.bracket = false → t.letters.length = 1)) ∧
+    patStr ts = [65, 35, 67, 33, 91, 71, 84, 93, 33, 82, 78, 91, 65, 67, 93, 35] ∧
+    patStr (ts.reverse.map Tok.comp) = [91, 71, 84, 93, 35, 78, 33, 89, 33, 91, 65, 67, 93, 71, 84, 35] := by decide
+
+/-- **outside the grammar the statement is false.**  `CheckPattern` also accepts strings that are not in the documented
+grammar — a `#` that follows a `#` is compiled as a position of its own (accepting nothing, obligatory).  For `A##A`
+(positions `A#`, `#`, `A`) `complementPattern` returns `T##T` (positions `T#`, `#`, `T`), which is NOT the mirror
+(`A`, `#`, `A#` mirrored would be `T`, `#`, `T#`); for `A##` the complement `##T` is rejected by `CheckPattern`.
+(Evaluation of the model on two inputs; the real C code gives the same results — checked with `harness_C10 C10 exec`;
+`A##` is in the harness corpus.) -/
+theorem complement_outside_grammar :
+    (compile ([65, 35, 35, 65] : Bytes) 1 false).toOption.bind
+        (fun P => (reverseComplement P).toOption.map (fun P' => (P.codes.reverse, P'.codes, P'.cpat)))
+      = some ([1, 67108864, 67108865], [67633152, 67108864, 524288], [84, 35, 35, 84]) ∧
+    ¬ MirrorList [1, 67108864, 67108865] [67633152, 67108864, 524288] ∧
+    (compile ([65, 35, 35] : Bytes) 1 false).toOption.map
+        (fun P => match reverseComplement P with | .error err => some err | .ok _ => none) = some (some .check) := by
+  refine ⟨by decide, ?_, by decide⟩
+  intro h
+  cases h with
+  | cons h1 _ =>
+    have := h1.1
+    revert this
+    decide
 
 /-! ## Go layer -/
 
